@@ -186,7 +186,7 @@ def showAttr (a : Str × Str) : String := bytesToHex a.1 ++ "=" ++ bytesToHex a.
 
 def showLink (l : Link) : String := ",".intercalate (bytesToHex l.href :: l.attrs.map showAttr)
 
-/-- `get_host_link` (rd.py:261-268); attributes sorted because `registration_parameters` is a dict -/
+/-- `get_host_link` (rd.py:263-270); attributes sorted because `registration_parameters` is a dict -/
 def showHostLink (r : Reg) : String :=
   let pairs := r.params.flatMap (fun e => e.2.map (fun v => (e.1, v)))
   let attrs := pairs ++ [(sBase, r.base), (sRt, [99, 111, 114, 101, 46, 114, 100, 45, 101, 112])]
